@@ -657,3 +657,170 @@ N('c07-sanitize-inline', 'C07', LANLIGHT,
         duration = param_32(duration)
         self._impl.set_color(color, duration, True)""",
   """        self._impl.set_color(param_color(color), param_32(duration), True)""")
+
+# ------------------------------------------------------------------ C08
+B('c08-clear-unlocked', 'C08', 'R08.a', JOBS,
+  """    def clear_queue(self) -> None:
+        if self._acquire_lock():
+            try:
+                self._queue.clear()
+            finally:
+                self._release_lock()""",
+  """    def clear_queue(self) -> None:
+        self._queue.clear()""")
+B('c08-done-unlocked', 'C08', 'R08.a', JOBS,
+  """    def _on_execution_done(self, _):
+        if self._acquire_lock():
+            try:
+                self._active_agent = None
+            finally:
+                self._release_lock()
+            self._run_next_job()""",
+  """    def _on_execution_done(self, _):
+        self._active_agent = None
+        self._run_next_job()""")
+B('c08-is-running-unlocked', 'C08', 'R08.a', JOBS,
+  """        result = False
+        if self._acquire_lock():
+            try:
+                if (self._active_agent is not None
+                        and self._active_agent.name == name):
+                    result = True
+                else:
+                    result = name in self._background
+            finally:
+                self._release_lock()
+        return result""",
+  """        if self._active_agent is not None and self._active_agent.name == name:
+            return True
+        return name in self._background""")
+B('c08-background-del-unlocked', 'C08', 'R08.a', JOBS,
+  """    def _on_background_done(self, agent):
+        if self._acquire_lock():
+            try:
+                del self._background[agent.name]
+            finally:
+                self._release_lock()""",
+  """    def _on_background_done(self, agent):
+        del self._background[agent.name]""")
+B('c08-release-not-finally', 'C08', 'R08.b', JOBS,
+  """            try:
+                if self._active_agent is None and len(self._queue) > 0:
+                    self._active_agent = self._queue.popleft()
+                    self._active_agent.execute()
+            finally:
+                self._release_lock()""",
+  """            if self._active_agent is None and len(self._queue) > 0:
+                self._active_agent = self._queue.popleft()
+                self._active_agent.execute()
+            self._release_lock()""")
+B('c08-double-release', 'C08', 'R08.b', JOBS,
+  """                if self._active_agent is None:
+                    self._run_next_job()
+            finally:
+                self._lock.release()""",
+  """                if self._active_agent is None:
+                    self._run_next_job()
+                self._lock.release()
+            finally:
+                self._lock.release()""")
+B('c08-acquire-ignored', 'C08', 'R08.b', JOBS,
+  """    def _on_background_done(self, agent):
+        if self._acquire_lock():
+            try:""",
+  """    def _on_background_done(self, agent):
+        self._acquire_lock()
+        if True:
+            try:""")
+B('c08-start-without-none-check', 'C08', 'R08.c', JOBS,
+  "                if self._active_agent is None and len(self._queue) > 0:",
+  "                if len(self._queue) > 0:")
+B('c08-start-from-right', 'C08', 'R08.c', JOBS,
+  "                    self._active_agent = self._queue.popleft()",
+  "                    self._active_agent = self._queue.pop()")
+B('c08-start-other-agent', 'C08', 'R08.c', JOBS,
+  """                    self._active_agent = self._queue.popleft()
+                    self._active_agent.execute()""",
+  """                    self._active_agent = self._queue.popleft()
+                    self._queue[0].execute()""")
+B('c08-callback-not-finally', 'C08', 'R08.d', JOBS,
+  """        try:
+            self._job.execute()
+        finally:
+            self._callback(self)""",
+  """        self._job.execute()
+        self._callback(self)""")
+B('c08-next-before-clear', 'C08', 'R08.d', JOBS,
+  """            try:
+                self._active_agent = None
+            finally:
+                self._release_lock()
+            self._run_next_job()""",
+  """            try:
+                self._run_next_job()
+                self._active_agent = None
+            finally:
+                self._release_lock()""")
+B('c08-callbacks-swapped', 'C08', 'R08.d', JOBS,
+  "                agent = Agent(job, self._on_execution_done, name)",
+  "                agent = Agent(job, self._on_background_done, name)")
+B('c08-spawn-start-before-register', 'C08', 'R08.e', JOBS,
+  """                self._background[agent.name] = agent
+                agent.execute()""",
+  """                agent.execute()
+                self._background[agent.name] = agent""")
+B('c08-insert-appends-right', 'C08', 'R08.f', JOBS,
+  "        return self._enqueue_job(job, self._queue.appendleft, name)",
+  "        return self._enqueue_job(job, self._queue.append, name)")
+N('c08-release-helper', 'C08', JOBS,
+  """                if self._active_agent is None:
+                    self._run_next_job()
+            finally:
+                self._lock.release()""",
+  """                if self._active_agent is None:
+                    self._run_next_job()
+            finally:
+                self._release_lock()""")
+N('c08-guard-reordered', 'C08', JOBS,
+  "                if self._active_agent is None and len(self._queue) > 0:",
+  "                if len(self._queue) > 0 and self._active_agent is None:")
+N('c08-get-current-atomic', 'C08', JOBS,
+  "    def get_current(self):\n        return self._active_agent",
+  "    def get_current(self):\n        current = self._active_agent\n        return current")
+
+# ------------------------------------------------------------------ C09
+B('c09-loop-ignores-flag', 'C09', 'R09.a', MACHINE,
+  "            while self._keep_running and self._reg.pc < program_len:",
+  "            while self._reg.pc < program_len:")
+B('c09-stop-keeps-clock', 'C09', 'R09.a', MACHINE,
+  "    def stop(self) -> None:\n        self._keep_running = False\n        self._clock.stop()",
+  "    def stop(self) -> None:\n        self._keep_running = False")
+B('c09-request-stop-noop', 'C09', 'R09.a', SCRIPTJOB,
+  "    def request_stop(self):\n        self._machine.stop()", "    def request_stop(self):\n        pass")
+B('c09-wait-until-ignores-wait', 'C09', 'R09.b', CLOCK,
+  "            if not self.wait():\n                return\n            hour, minute", "            self.wait()\n            hour, minute")
+B('c09-pause-ignores-wait', 'C09', 'R09.b', CLOCK,
+  "            if not self.wait():\n                break", "            self.wait()")
+B('c09-wait-rearms', 'C09', 'R09.c', CLOCK,
+  "    def reset(self):\n        self._cue_time = 0.0",
+  "    def reset(self):\n        self._keep_going = True\n        self._cue_time = 0.0")
+B('c09-stop-all-order', 'C09', 'R09.d', WEBAPP,
+  """        self._jobs.clear_queue()
+        result1 = self._jobs.stop_current()""",
+  """        result1 = self._jobs.stop_current()
+        self._jobs.clear_queue()""")
+B('c09-stop-script-noop', 'C09', 'R09.d', WEBAPP,
+  "        return self._jobs.stop_job(path)", "        return self._jobs.is_running(path)")
+B('c09-clock-stop-in-try', 'C09', 'R09.e', MACHINE,
+  """        finally:
+            self._clock.stop()
+            self._vm_io.flush()""",
+  """            self._clock.stop()
+        finally:
+            self._vm_io.flush()""")
+N('c09-flag-second', 'C09', MACHINE,
+  "            while self._keep_running and self._reg.pc < program_len:",
+  "            while self._reg.pc < program_len and self._keep_running:")
+N('c09-wait-until-break', 'C09', CLOCK,
+  "            if not self.wait():\n                return\n            hour, minute",
+  "            if not self.wait():\n                break\n            hour, minute")
